@@ -17,8 +17,8 @@ META = {
                  "z3 refutes 'coefficient of eps^k of the step != coefficient of the exact flow' for k = 0, 1, 2",
     "explanation": "bounded SMT check: start state and polynomial model coefficients symbolic; eps a formal variable",
     "bounds": {"quick": {"dim": 1, "series_order": 3}, "thorough": {"dim": "1-2", "series_order": 3}},
-    "outside": "constrained integrator (its Newton projection needs Laurent series in eps), implicit integrators on position-dependent "
-               "(Riemannian) metrics (normal forms did not finish in 1500 s per case), dim > 2, non-polynomial targets, "
+    "outside": "constrained integrator (its Newton projection needs Laurent series in eps), implicit integrators on dense / SoftAbs "
+               "position-dependent metrics (the log-determinant energy term is not decided), dim > 2, non-polynomial targets, "
                "global error accumulation (a textbook consequence of local order + stability)",
     "stubs": ["LAPACK stubs", "LOG/SIN/COS/SQRT uninterpreted with Taylor rules in the series domain"],
     "assumptions": ["metric positive at the expansion point", "denominators recorded during execution are non-zero"],
@@ -37,7 +37,13 @@ def run_group(rec, probs):
 
 # implicit integrators on position-dependent metrics: the eps-series coefficients of the fixed-point iterates are rational
 # functions whose normal forms did not finish within 1500 s per case (10 cases tried); outside the claim until they do
-RIEMANNIAN_IMPLICIT = []  # [("scalar", 1, "diag"), ("diagonal", 1, "diag"), ("scalar", 2, "diag"), ("cholesky", 1, "diag"), ("dense", 1, "diag")]
+# ... with a symbolic expansion point.  At the expansion point q = 0 (no loss of generality for polynomial models with free
+# coefficients, see integlib.prob_order2) they take 20 - 200 s and are registered as order2_origin cases below.
+RIEMANNIAN_IMPLICIT = []
+RIEMANNIAN_ORIGIN_QUICK = [("implicit_leapfrog", "scalar", 1), ("implicit_midpoint", "diagonal", 1)]
+RIEMANNIAN_ORIGIN_THOROUGH = [("implicit_leapfrog", "scalar", 1), ("implicit_leapfrog", "diagonal", 1), ("implicit_leapfrog", "scalar", 2),
+                              ("implicit_leapfrog", "cholesky", 1), ("implicit_midpoint", "scalar", 1), ("implicit_midpoint", "diagonal", 1),
+                              ("implicit_midpoint", "scalar", 2), ("implicit_midpoint", "cholesky", 1)]
 
 
 def cases(tier):
@@ -61,6 +67,8 @@ def cases(tier):
             if ik.endswith("steffensen") and kind != "euclid":
                 continue
             G(f"order2/{ik}/{kind}/{dim}", "order2", {"ikind": ik, "kind": kind, "dim": dim, "mkind": mkind})
+    for ik, kind, dim in (RIEMANNIAN_ORIGIN_THOROUGH if th else RIEMANNIAN_ORIGIN_QUICK):
+        G(f"order2_origin/{ik}/{kind}/{dim}", "order2", {"ikind": ik, "kind": kind, "dim": dim, "mkind": "diag", "origin": True})
     # (constrained integrator: the Newton projection divides by the O(eps) Gram scalar J (|t| M^-1) J_prev^T, which needs
     # Laurent series; prob_order2_constrained is kept in integlib but not registered - outside the claim)
     for k in (1, 2, 3, 4):
